@@ -289,7 +289,8 @@ class MultiAntennaArray(object):
                 bg_x_v = xp.concatenate([antenna.bg_cache[0], self.bg_x.v])[:bg_num_samples]
                 
             antenna.bg_cache[0] = self.bg_x.v[bg_num_samples-antenna.delay:]
-            antenna.x.v += bg_x_v
+            # (not in place: a complex background promotes real antenna voltages)
+            antenna.x.v = antenna.x.v + bg_x_v
             
             if self.num_pols == 2:
                 antenna.y.get_samples(num_samples)
@@ -300,7 +301,7 @@ class MultiAntennaArray(object):
                     bg_y_v = xp.concatenate([antenna.bg_cache[1], self.bg_y.v])[:bg_num_samples]
                     
                 antenna.bg_cache[1] = self.bg_y.v[bg_num_samples-antenna.delay:]
-                antenna.y.v += bg_y_v
+                antenna.y.v = antenna.y.v + bg_y_v
                 
         self.t_start += num_samples * self.dt
         self.start_obs = False
